@@ -174,6 +174,22 @@ def sharing_sequences(arity: int) -> list[tuple[str, list]]:
     c2 = list(base("ld", arity)); c2[2] = ("lit", "chat", "en-us", None)
     c3 = list(base("le", arity)); c3[2] = ("lit", "Chat", "en-us", None)
     out.append(("literals-differing-in-case-only", [tuple(c1), tuple(c2), tuple(c3), tuple(c1)]))
+    # same-slot terms of consecutive statements that agree in all components but one (the repeated-term elision compares
+    # terms with the integration's own ==): same lexical form with no / different datatypes / different language tags,
+    # and the same string once as IRI and once as blank node label
+    lx, ly = sstr(Atom("eq.lex")), sstr(Atom("eq.lex2"))
+    dta, dtb = sstr(Atom("EQA.dt")), sstr(Atom("EQB.dt"))
+    objs = [("lit", lx, None, None), ("lit", lx, None, dta), ("lit", lx, None, dtb), ("lit", lx, "en", None), ("lit", lx, "fr", None), ("lit", ly, "fr", None), ("lit", ly, None, dtb), ("lit", lx, None, dtb), ("lit", lx, None, None)]
+    eqseq = []
+    for o in objs:
+        st = base("eq", arity)
+        st[2] = o
+        eqseq.append(tuple(st))
+    out.append(("same-slot-literals-differing-in-one-component", eqseq))
+    same = sstr(Atom("eqkind.str", nosep=True))
+    k1 = base("ek", arity); k1[0] = ("iri", same); k1[2] = ("bnode", same)
+    k2 = base("ek", arity); k2[0] = ("bnode", same); k2[2] = ("iri", same)
+    out.append(("same-string-as-iri-and-as-blank-node", [tuple(k1), tuple(k2), tuple(k1)]))
     # a statement that needs more than 8 names: deep quoted triples in subject and object
     def deep(tag: str) -> tuple:
         return P.t_triple(P.t_iri(tag + ".1"), P.t_iri(tag + ".2"), P.t_triple(P.t_iri(tag + ".3"), P.t_iri(tag + ".4"), P.t_triple(P.t_iri(tag + ".5"), P.t_iri(tag + ".6"), P.t_iri(tag + ".7"))))
